@@ -36,11 +36,14 @@ class _Scripted(ModelMixin):
     needs_history: ClassVar[bool] = False
     identifier: str = ""
 
-    def __init__(self, position_key: str, table_key: str, identifier: str):
+    def __init__(self, position_key: str, table_key: str, identifier: str, stamp=None):
+        """stamp: optional function (cid, t) -> scalar array written into the position key (default: the
+        float32 stamp 1000*cid + t); used by the dtype part of C19 (float64 / int32 positions)"""
         self._model = None
         self.position_keys = (position_key,)
         self.table_key = table_key
         self.identifier = identifier
+        self.stamp = stamp
 
     def init_state(self, prng_key, model_state):
         return ScriptedKernelState(calls=jnp.int32(0))
@@ -48,7 +51,10 @@ class _Scripted(ModelMixin):
     def transition(self, prng_key, kernel_state, model_state, epoch):
         t = epoch.time
         code = model_state[self.table_key][t]
-        stamp = (1000 * model_state["cid"] + t).astype(jnp.float32)
+        if self.stamp is None:
+            stamp = (1000 * model_state["cid"] + t).astype(jnp.float32)
+        else:
+            stamp = self.stamp(model_state["cid"], t)
         new_ms = self.model.update_state({self.position_keys[0]: stamp}, model_state)
         info = DefaultTransitionInfo(
             error_code=code.astype(jnp.int32), acceptance_prob=jnp.float32(99.0), position_moved=jnp.int32(99)
